@@ -173,9 +173,14 @@ RelMism(e) ==
     : i \in 1..n, j \in 1..n }
 
 \* mismatches of every run against the reference: set of <<run index, tag>>
+\* accessor sweep runs (all single-layer decoders, every accessor): no value prediction; the observable of
+\* C01/C02 is "no sub-slice outside the input, same digest at both guard-page placements, no panic"
+SweepMism(x) == (IF x.res.v = "panic" THEN {"panic"} ELSE {}) \cup (IF x.res.oob # 0 THEN {"oob"} ELSE {}) \cup (IF x.pl # 1 THEN {"placement"} ELSE {})
+
 RefMism(e) ==
-  UNION { LET x == e.runs[i]
-              b == Drop(e.bytes, x.skip)
+  UNION { LET x == e.runs[i] IN
+          IF x.m = "sweep" THEN {<<i, t>> : t \in SweepMism(x)} ELSE
+          LET b == Drop(e.bytes, x.skip)
               r == FinalDev(b, x.m, x.fam, x.entry, x.et, x.upto, KnownDev)
           IN {<<i, t>> : t \in RunMism(r, x.res, x.fam) \cup (IF x.pl # 1 THEN {"placement"} ELSE {})
                                    \cup {"KF:" \o d : d \in r.hit}}
